@@ -365,6 +365,19 @@ def rule_cancel(ctx, lc):
 def run(ctx):
     cm = ChainModel(ctx)
     lc = rule_ctx(ctx, cm)
-    ctx.floor('C06.SHIELD', 2, rule_shield(ctx))
-    ctx.floor('C06.OKFLAG', 20, rule_okflag(ctx, cm))
-    ctx.floor('C06.CANCEL', 4, rule_cancel(ctx, lc))
+    ctx.rule('C06.SHIELD', lambda: rule_shield(ctx), 2)
+    ctx.rule('C06.OKFLAG', lambda: rule_okflag(ctx, cm), 20)
+    ctx.rule('C06.CANCEL', lambda: rule_cancel(ctx, lc), 4)
+    # each backup job leaves the durable state consistent at one height: the history truncation belongs to
+    # the same job as the UTXO commit (a stop between jobs is a legal cancellation instant)
+    from ..effects import InlineGraph
+    from .flushcommon import commit_points
+    from . import c05
+    fb = ctx.func('db', 'DB.flush_backup')
+    ig = InlineGraph(ctx, fb)
+    cps, _ = commit_points(ig)
+    if len(cps) == 1:
+        ctx.rule('C06.JOBATOMIC', lambda: c05.rule_histtrunc(ctx, ig, cps[0], 'C06'), 7)
+    else:
+        ctx.bad('C06.JOBATOMIC', ctx.key(fb, None, 'commit point'), 'backup flush has no single UTXO commit with the state record',
+                loc=ctx.loc(fb, fb.node))
